@@ -75,6 +75,7 @@ pub fn goal(g: &G) -> String {
         G::Timesz(a, b, c) => format!("timesz({}, {}, {})", a.show(), b.show(), c.show()),
         G::UserTag(t) => format!("usertag({})", t),
         G::Probe(i) => format!("probe({})", i),
+        G::Observe(i) => format!("observe({})", i),
     }
 }
 
